@@ -309,10 +309,51 @@ class C20(Prop):
             data['x'][k] = -1e308
         return {'formula': f, 'data': data, 'overflow': True}
 
+    def gen_shifted_terms(self, rng):
+        """A predicate that relates a one-step shifted copy of a variable (prev/next/s_prev/s_next of a *term*) with
+        the variable itself or with another one - `always((next x) >= (x - 2))`, `always(abs((prev x) - y) <= 1)`:
+        the shifted operand is explained over intervals moved by one sample, its sibling over the unmoved ones, whatever
+        the order of the operands."""
+        N, V, C = lang.N, lang.V, lang.C
+        n = rng.randint(4, 8)
+        a = V('x')
+        b = V('x') if rng.random() < 0.5 else V('y')
+        sh = N(rng.choice(['next', 'prev', 's_next', 's_prev', 'next', 'prev']), a)
+        if rng.random() < 0.25:
+            sh = N(rng.choice(['abs', 'neg']), sh)
+        c0 = rng.choice([1.0, 2.0, 3.0])
+        r = rng.random()
+        if r < 0.35:
+            rhs = N(rng.choice(['sub', 'add']), b, C(c0))
+            sides = [sh, rhs]
+        elif r < 0.7:
+            d = N(rng.choice(['sub', 'add', 'mul']), *(rng.sample([sh, b], 2)))
+            sides = [N('abs', d) if rng.random() < 0.5 else d, C(c0)]
+        else:
+            sides = [sh, b]
+        if rng.random() < 0.35:
+            sides.reverse()
+        p = N(rng.choice(['geq', 'leq', 'gt', 'lt']), *sides)
+        w = rng.random()
+        if w < 0.4:
+            f = N(rng.choice(['always', 'eventually']), p)
+        elif w < 0.7:
+            k = rng.randint(0, 2)
+            f = N(rng.choice(['always', 'eventually']), p, ivl=(k, rng.randint(k, n - 1)))
+        elif w < 0.85:
+            f = N(rng.choice(['and', 'or']), *rng.sample([N('always', p), N(rng.choice(['geq', 'leq']), V('z'), C(0.0))], 2))
+        else:
+            f = N('not', N(rng.choice(['always', 'eventually']), N('not', p)))
+        vals = [0.0, 1.0, 2.0, 5.0, -1.0, 3.0]
+        return {'formula': f, 'data': dict((k, [rng.choice(vals) for _ in range(n)]) for k in lang.variables(f)),
+                'shifted_terms': True}
+
     def gen(self, rng, ctx):
         r = rng.random()
         if r < 0.02:
             return self.gen_overflow(rng)
+        if 0.64 <= r < 0.70:
+            return self.gen_shifted_terms(rng)
         if r < 0.06:
             return self.gen_edge(rng)
         if r > 0.9:
@@ -402,6 +443,8 @@ class C20(Prop):
             v.skip = 'evaluate disagrees with the reference (C01)'
             return v
         v.info['class:' + ('violated' if rho0 < 0 else 'satisfied')] = 1
+        if case.get('shifted_terms'):
+            v.info['class:shifted-term-in-predicate'] = 1
         known = self.known_for(f)
         try:
             m.explain()
